@@ -179,6 +179,12 @@ func (cell c13cell) config(variant int) *cfg.Config {
 		return s
 	}
 	conf.Services = []cfg.Service{mk("svc", "GetSvc", false), mk("bad", "FetchBad", true), {Name: "plain", Constructor: cfg.P(pkg + ".New")}}
+	switch variant % 3 {
+	case 1: // the in-context accessors must really use the context: a contextual service has one instance per context
+		conf.Services[0].Scope = cfg.P("contextual")
+	case 2:
+		conf.Services[0].Scope = cfg.P("non_shared")
+	}
 	if cell.typ == "val" && cell.getter {
 		// value-typed failing getter as well (type-only zero value with a failing field)
 		conf.Services = append(conf.Services, cfg.Service{Name: "vbad", Type: cfg.P(pkg + ".Obj"), Getter: cfg.P("GetVBad"), MustGetter: tri(cell.must),
@@ -210,7 +216,8 @@ func checkC13(c *Ctx) error {
 						conf := cell.config(i)
 						ops := []probe.Op{{Op: "new"}, {Op: "api"}, {Op: "get", Name: "svc"},
 							{Op: "getter", Name: "GetSvc"}, {Op: "getterctx", Name: "GetSvcInContext", Ctx: 1}, {Op: "getctx", Name: "svc", Ctx: 1},
-							{Op: "getter", Name: "MustGetSvc"}, {Op: "getterctx", Name: "MustGetSvcInContext", Ctx: 1},
+							{Op: "getter", Name: "MustGetSvc"}, {Op: "getterctx", Name: "MustGetSvcInContext", Ctx: 1}, {Op: "getterctx", Name: "MustGetSvcInContext", Ctx: 1},
+							{Op: "getterctx", Name: "MustGetSvcInContext", Ctx: 2}, {Op: "getterctx", Name: "GetSvcInContext", Ctx: 2}, {Op: "getctx", Name: "svc", Ctx: 2}, {Op: "getter", Name: "GetSvc"},
 							{Op: "getter", Name: "FetchBad"}, {Op: "getterctx", Name: "FetchBadInContext", Ctx: 2}, {Op: "getter", Name: "MustFetchBad"}, {Op: "getterctx", Name: "MustFetchBadInContext", Ctx: 2},
 							{Op: "getter", Name: "GetVBad"}, {Op: "getter", Name: "MustGetVBad"},
 							{Op: "getter", Name: "GetPlain"}, {Op: "getter", Name: "Getplain"}, {Op: "get", Name: "plain"}}
